@@ -221,3 +221,20 @@ func verif_harness_C02_stop_once() {
 		verif_assert(verif_ghost_add("stops_reporting_true", 0) == 1, "C02.some-Stop-reports-initiating-the-stop")
 	}
 }
+
+// C03 — the limits the attack works with are the configured ones: whatever
+// the order in which the Workers and MaxWorkers options are given, the attacker
+// holds exactly those two values (the clamp of the initial workers to the
+// maximum happens inside Attack, where the BMC harnesses see it).
+//
+//verif:harness unwind=16
+func verif_harness_C03_options_independent() {
+	w, m := verif_nondet_u64("workers"), verif_nondet_u64("max_workers")
+	var a *Attacker
+	if verif_nondet_bool("max_workers_first") {
+		a = NewAttacker(MaxWorkers(m), Workers(w))
+	} else {
+		a = NewAttacker(Workers(w), MaxWorkers(m))
+	}
+	verif_assert(a.workers == w && a.maxWorkers == m, "C03.options.workers-and-max-workers-are-what-was-configured")
+}
